@@ -75,6 +75,7 @@ type State struct {
 	touched   map[string]bool // heap names written on this path (incl. via havoc)
 	dead      bool
 	lastRes   map[string]Val // callee name -> result of its most recent call on this path
+	refFacts  map[string]bool // ref terms already known to be allocated (rootid < alloc pointer)
 }
 
 func (s *State) clone() *State {
@@ -90,6 +91,12 @@ func (s *State) clone() *State {
 		n.touched[k] = v
 	}
 	n.calllog = append([]string(nil), s.calllog...)
+	if s.refFacts != nil {
+		n.refFacts = make(map[string]bool, len(s.refFacts))
+		for k, v := range s.refFacts {
+			n.refFacts[k] = v
+		}
+	}
 	if s.lastRes != nil {
 		n.lastRes = make(map[string]Val, len(s.lastRes))
 		for k, v := range s.lastRes {
@@ -631,11 +638,19 @@ func (c *Ctx) loadAt(s *State, heap map[string]string, p Val, t types.Type) Val 
 	var v Val
 	switch t.Underlying().(type) {
 	case *types.Slice:
-		v = SliceV{rd(cs[0]), rd(cs[1]), rd(cs[2]), rd(cs[3]), t}
+		sv := SliceV{rd(cs[0]), rd(cs[1]), rd(cs[2]), rd(cs[3]), t}
+		c.allocatedFact(s, sv.Arr)
+		v = sv
 	case *types.Interface:
-		v = IfaceV{rd(cs[0]), rd(cs[1]), rd(cs[2]), t}
+		iv := IfaceV{rd(cs[0]), rd(cs[1]), rd(cs[2]), t}
+		c.allocatedFact(s, iv.PRef)
+		v = iv
 	default:
-		v = Scalar{rd(cs[0]), cs[0].S, t}
+		sc := Scalar{rd(cs[0]), cs[0].S, t}
+		if sc.S == SRef {
+			c.allocatedFact(s, sc.T)
+		}
+		v = sc
 	}
 	return v
 }
@@ -815,4 +830,20 @@ func (c *Ctx) localUpdate(v Val, proj []string, nv Val) Val {
 	}
 	unsup("bad projection")
 	return nil
+}
+
+// allocatedFact: a reference obtained by a load was stored earlier, hence allocated before the current allocation pointer.
+func (c *Ctx) allocatedFact(s *State, ref string) {
+	if s == nil || ref == "rnil" {
+		return
+	}
+	if s.refFacts == nil {
+		s.refFacts = map[string]bool{}
+	}
+	key := ref + "<" + s.allocBase
+	if s.refFacts[key] {
+		return
+	}
+	s.refFacts[key] = true
+	c.assume(s, fmt.Sprintf("(< (rootid %s) %s)", ref, c.allocTerm(s)))
 }
